@@ -363,6 +363,25 @@ def _(c):
     c.no_raise()
 
 
+# a condition is evaluated where it stands: the same condition text later in the document sees the values the nodes have THEN
+SAME_TEXT = (f"@case {_C(0)}\n  a int = 1\n@else\n  a int = 2\n@end\nc0 = {{?c1}}\n@case {_C(0)}\n  b int = 10\n@else\n  b int = 20\n@end\n"
+             f"g\n  @case {_C(0)}\n    d int = 100\n  @case {_C(2)}\n    d int = 200\n  @else\n    d int = 300\n  @end\nc0 = {{?c3}}\n@case {_C(0)}\n  e int = 7\n@end")
+
+
+@contract(DIPC + ".parse", ["C15"], name="DIP.parse[same-condition-text-after-the-node-changed]")
+def _(c):
+    c.bound = "one text in which the same condition text occurs four times while the referenced boolean is reassigned in between; truth values symbolic"
+    c.chunk = 1
+
+    def pre(b):
+        d, env, cs, vs = prestate(b, SAME_TEXT)
+        return dict(args=[d], env=dict(cs=cs))
+    c.scenario("condition-text-repeated", pre)
+    c.ensures("val_of(result, 'a') == ite(cs[0], 1, 2) and val_of(result, 'b') == ite(cs[1], 10, 20)", "each-block-selects-by-the-value-at-its-place")
+    c.ensures("val_of(result, 'g.d') == ite(cs[1], 100, ite(cs[2], 200, 300)) and (node_of(result, 'e') is not None) == cs[3]", "nested-and-later-blocks-too")
+    c.no_raise()
+
+
 # =====================================================================================================================
 # General form: a prelude (parsed first; the values of some of its nodes are then replaced by symbols), a text parsed
 # on top of that environment, and what the property says about the outcome, written as small expression trees over the
@@ -541,6 +560,10 @@ C16_TEXTS = [
     ("own-value-used-twice-around-a-comparison-in-another-unit", 'lim float = 1 m\nsz float = {?w0} cm\n  !condition ("{?} < {?lim} && {?} < 5")', ("and", ("lt", w0, 100), ("lt", w0, 5)), [("sz", w0)]),
     ("own-value-used-twice-around-a-comparison-in-another-unit-2", 'lim float = 1 m\nsz float = {?w0} cm\n  !condition ("{?} < {?lim} && {?} > 5")', ("and", ("lt", w0, 100), ("gt", w0, 5)), [("sz", w0)]),
     ("another-node-used-twice-around-a-comparison-in-another-unit", 'lim float = {?w1} m\nsz float = {?w0} cm\n  !condition ("{?lim} > {?} && {?lim} < 3")', ("and", ("gt", ("*", w1, 100), w0), ("lt", w1, 3)), [("sz", w0)]),
+    # options given by reference are the referenced values IN THEIR UNIT (23 cm is not one of 22 m, 23 m)
+    ("options-by-reference-in-another-unit-value-outside", "allowed float[2] = [22,23] m\nsz float = 23 cm\n  !options {?allowed}", False, []),
+    ("options-by-reference-in-another-unit-value-inside", "allowed float[2] = [22,23] m\nsz float = 2300 cm\n  !options {?allowed}\none float = 22 m\nsy float = 2200 cm\n  = {?one}\n  = 5 cm", True, [("sz", 2300), ("sy", 2200)]),
+    ("option-line-by-reference-in-another-unit-value-outside", "one float = 22 m\nsy float = 22 cm\n  = {?one}\n  = 5 cm", False, []),
     # a slice written on the definition applies to the value it was written on, not to later assignments: those are judged as they are
     ("sliced-definition-then-a-modification-within-the-bounds", "bb int[4] = [1,2,3,4]\naa int[2:3] = {?bb}[1:3]\naa = [7,8]", True, []),
     ("sliced-definition-then-a-modification-outside-the-bounds", "bb int[4] = [1,2,3,4]\naa int[2] = {?bb}[0:2]\naa = [5,6,7]", False, []),
@@ -927,8 +950,9 @@ def _(c):
 C13_TEXTS = [
     # a node written a second time (re-opened group, dotted spelling) with the literal none has no value afterwards, whatever its type
     ("rewritten-as-none", 'box\n  name str = cube\n  open bool = true\n  sides str[2] = ["left","right"]\n  n int = 3 m\n  x float = 1.5\nbox.name str = none\nbox\n  open bool = none\n'
-     '  sides str[2] = none\nbox.n int = none\nbox.x float = none',
-     [("box.name", "str", None, None), ("box.open", "bool", None, None), ("box.sides", "str", None, None), ("box.n", "int", None, "m"), ("box.x", "float", None, None)]),
+     '  sides str[2] = none\nbox.n int = none\nbox.x float = none\ngain uint16 = 12\nf32 float32 = 1.5 V\nwide int64[2] = [1,2]\ngain uint16 = none\nf32 float32 = none\nwide int64[2] = none',
+     [("box.name", "str", None, None), ("box.open", "bool", None, None), ("box.sides", "str", None, None), ("box.n", "int", None, "m"), ("box.x", "float", None, None),
+      ("gain", "int", None, None), ("f32", "float", None, "V"), ("wide", "int", None, None)]),
     # the declared width is part of the type, the numbers are the ones written (0.1 is 0.1, not its single-precision neighbour)
     ("narrow-float-arrays-keep-the-numbers-written", 'w float32[3] = [0.1,0.2,2.5] V\nx float32 = 0.1\nblk float32[2] = """\n[0.7,1e-3]\n""" m\nq float128[2] = [0.1,0.25]',
      [("w", "float", [0.1, 0.2, 2.5], "V"), ("x", "float", 0.1, None), ("blk", "float", [0.7, 1e-3], "m"), ("q", "float", [0.1, 0.25], None)]),
@@ -1065,6 +1089,7 @@ def _(c):
             return dict(args=[d], env=dict(want=want))
         c.scenario(name, pre)
     c.ensures("literal_view(result) == want", "one-parameter-per-node-with-path-type-value-and-unit-as-written")
+    c.ensures("all([value_type_ok(n) for n in result.nodes])", "the-value-carries-the-declared-width-and-sign")
     c.no_raise()
 
 
